@@ -629,8 +629,11 @@ def run_check(chk: PropertyCheck, tier: str, seed: int, replay: str | None = Non
         "violations": len(violations),
     }
     if not replay:
-        (VERIF / "evidence").mkdir(exist_ok=True)
-        (VERIF / "evidence" / f"{pid}.json").write_text(json.dumps(evidence, indent=1))
+        # VERIF_EVIDENCE_DIR is only set by tools/run_mutant.sh so that mutant runs never overwrite the
+        # evidence of the real tree
+        edir = Path(os.environ.get("VERIF_EVIDENCE_DIR") or (VERIF / "evidence"))
+        edir.mkdir(exist_ok=True, parents=True)
+        (edir / f"{pid}.json").write_text(json.dumps(evidence, indent=1))
     for path, nofail in violations:
         emit(f"VIOLATION property={pid} replay={path}" + (" no-failing-input-found" if nofail else ""))
     if not violations:
